@@ -5,7 +5,7 @@ non-ignored edges of the same size is searched exhaustively and checked (anticha
 passed together with the synthetic edges) must equal it; k-cover models are solved exactly for k >= width."""
 import itertools
 import networkx as nx
-import common, gen, gen2, zoo, props, oracles
+import common, gen, gen2, zoo, props, oracles, vcheck
 
 LEVEL = "proof"
 EXPLANATION = ("Props/C09.v: weak duality (any cover of a demand has at least as many routes as any set of pairwise incompatible "
@@ -69,8 +69,9 @@ def check_instance(ctx, info, cyclic):
             ctx.report(f"{name}: node {miss[0]!r} is not covered", rep); return
     else:
         why = props.covers(G, routes, ignore=info["ignore"])
+        VB.covers(G, routes, [tuple(e) for e in info["ignore"]], why is None, f"{name}: {why}", rep)   # verified checker Checkers.covers_b
         if why:
-            ctx.report(f"{name}: {why}", rep); return
+            return
     for r in routes:
         why = props.valid_route(G, r, starts=info["starts"], ends=info["ends"], simple=not cyclic)
         if why:
@@ -137,7 +138,12 @@ def check_instance(ctx, info, cyclic):
                 ctx.report(f"{kcls}(k={k}) solved={km.is_solved()} but the width is {opt}", rep); break
 
 
+VB = None
+
+
 def run(ctx):
+    global VB
+    VB = vcheck.Batch(ctx)
     ctx.rule = ("MinPathCover on random DAGs and MinPathCoverCycles on random cyclic digraphs (every edge on a source-to-sink walk), "
                 "edge and node cover type, ignore sets, additional starts/ends, constraints; non-trivial = optimum >= 2; "
                 "distinct by graph + arguments")
@@ -153,6 +159,7 @@ def run(ctx):
                  sample={"class": name, "edges": [list(e) for e in info["G"].edges()], "ignore": info["ignore"]})
         ctx.dist(f"{name}:{'node' if info['node'] else 'edge'}")
     run_families(ctx)
+    VB.flush()
 
 
 def bottleneck_scc(nA, nB):
